@@ -40,6 +40,9 @@ type Case struct {
 	Tree   *JNode    `json:"tree"`
 	Reqs   []vfs.Req `json:"reqs"`
 	Secret bool      `json:"secret_root,omitempty"`
+	// NoModel: the case involves a name the host file system cannot hold (longer than 255 bytes); the abstract model
+	// knows no such limit, so only the model-free oracles (C02, C17) apply
+	NoModel bool `json:"no_model,omitempty"`
 }
 
 type env struct {
@@ -479,6 +482,82 @@ func TestBodyFaults(t *testing.T) {
 }
 
 // ---------------------------------------------------------------------------
+// names at and beyond the host's file-name limit (after C01-s14, C02-s9): a name of up to 255 bytes is an ordinary
+// name and the model applies in full - whatever the server derives from it (temporary upload names, set-aside names)
+// must still fit; a longer name cannot be stored, and a request that fails for it must leave nothing behind (C02)
+// and disclose nothing (C17)
+
+func TestLongNames(t *testing.T) {
+	if vev.ReplayFile() != "" {
+		t.Skip()
+	}
+	e := newEnv(t)
+	defer e.close()
+	l200, l230, l255 := "n200"+strings.Repeat("x", 196), "n230"+strings.Repeat("y", 226), "n255"+strings.Repeat("z", 251)
+	cjk := strings.Repeat("\u8a9e", 85) // 255 bytes in 85 characters
+	l256, l300 := "n256"+strings.Repeat("o", 252), "n300"+strings.Repeat("p", 296)
+	state := func(names ...string) *vfs.Node {
+		d := vfs.NewDir()
+		d.Kids["a"] = vfs.NewFile("content of a")
+		sub := vfs.NewDir()
+		sub.Kids["k"] = vfs.NewFile("kept")
+		d.Kids["d"] = sub
+		for i, n := range names {
+			if i%2 == 0 {
+				d.Kids[n] = vfs.NewFile("old " + n[:4])
+			} else {
+				x := vfs.NewDir()
+				x.Kids[n] = vfs.NewFile("inner")
+				d.Kids[n] = x
+			}
+		}
+		return d
+	}
+	states := []*vfs.Node{state(), state(l230), state(l255, cjk), state(l200, l255)}
+	idx := 0
+	for _, s := range states {
+		for _, n := range []string{l200, l230, l255, cjk, l256, l300} {
+			over := len(n) > 255
+			var reqs []vfs.Req
+			for _, p := range []string{"/" + n, "/d/" + n, "/" + n + "/" + n} {
+				for _, m := range []string{"GET", "HEAD", "DELETE", "MKCOL", "OPTIONS"} {
+					reqs = append(reqs, vfs.Req{Method: m, Path: p})
+				}
+				reqs = append(reqs, vfs.Req{Method: "PUT", Path: p, Body: "new content"}, vfs.Req{Method: "PUT", Path: p, Body: strings.Repeat("0123456789abcdef", 4097)},
+					vfs.Req{Method: "PROPFIND", Path: p, Depth: "1", Body: pfAllprop, ContentType: "application/xml"})
+				for _, other := range []string{"/a", "/d", "/new", "/d/" + l255} {
+					for _, m := range []string{"COPY", "MOVE"} {
+						for _, ow := range []string{"", "F"} {
+							reqs = append(reqs, vfs.Req{Method: m, Path: p, HasDest: true, Dest: EscapePath(other), Overwrite: ow},
+								vfs.Req{Method: m, Path: other, HasDest: true, Dest: EscapePath(p), Overwrite: ow})
+						}
+					}
+				}
+			}
+			for _, r := range reqs {
+				idx++
+				if !vev.MyShare(idx) {
+					continue
+				}
+				e.set(s)
+				st, err := e.step(r)
+				if err != nil {
+					continue
+				}
+				v := e.judge(st, "L")
+				if over {
+					v.o01 = vev.Outcome{}
+					rec02.Count("name-beyond-255-bytes", 1)
+				}
+				report(t, Case{Tree: ToJ(s), Reqs: []vfs.Req{r}, NoModel: over}, v)
+			}
+		}
+	}
+	rec01.ExhaustiveSub("names of 200, 230 and 255 bytes (ASCII and 85 three-byte characters) as target, parent, source and destination of every method, on 4 states")
+	rec02.ExhaustiveSub("names of 256 and 300 bytes as target, parent, source and destination of every method (model-free oracles only)")
+}
+
+// ---------------------------------------------------------------------------
 // replay
 
 func runCase(t testing.TB, c Case) verdicts {
@@ -499,6 +578,9 @@ func runCase(t testing.TB, c Case) verdicts {
 			continue
 		}
 		v := e.judge(st, "R")
+		if c.NoModel {
+			v.o01 = vev.Outcome{}
+		}
 		if !v.o01.OK() && last.o01.OK() {
 			last.o01 = v.o01
 		}
